@@ -37,6 +37,19 @@ use rustc_trait_selection::infer::InferCtxtExt;
 use std::collections::BTreeMap;
 use std::fmt::Write as _;
 
+struct UnsafeFinder {
+    count: u32,
+}
+
+impl<'v> rustc_hir::intravisit::Visitor<'v> for UnsafeFinder {
+    fn visit_block(&mut self, b: &'v rustc_hir::Block<'v>) {
+        if let rustc_hir::BlockCheckMode::UnsafeBlock(rustc_hir::UnsafeSource::UserProvided) = b.rules {
+            self.count += 1;
+        }
+        rustc_hir::intravisit::walk_block(self, b);
+    }
+}
+
 fn esc(s: &str) -> String {
     let mut o = String::with_capacity(s.len() + 2);
     o.push('"');
@@ -635,12 +648,23 @@ impl<'tcx> Cx<'tcx> {
         };
         let parent = tcx.opt_parent(owner).map(|p| esc(&self.path(p))).unwrap_or("null".into());
         let in_test = self.in_cfg_test(owner);
+        let unsafe_blocks = match owner.as_local() {
+            Some(l) if promoted.is_none() => match tcx.hir_maybe_body_owned_by(l) {
+                Some(hb) => {
+                    let mut f = UnsafeFinder { count: 0 };
+                    rustc_hir::intravisit::Visitor::visit_expr(&mut f, hb.value);
+                    f.count
+                }
+                None => 0,
+            },
+            _ => 0,
+        };
         let exported = match owner.as_local() {
             Some(l) if matches!(def_kind, DefKind::Fn | DefKind::AssocFn) => tcx.effective_visibilities(()).is_reachable(l),
             _ => false,
         };
         format!(
-            "{{\"id\":{},\"ext\":{},\"kind\":{},\"promoted\":{},\"def_kind\":{},\"span\":{},\"vis\":{},\"exported\":{},\"unsafe\":{},\"arg_count\":{},\"impl_trait\":{},\"impl_self\":{},\"trait_of\":{},\"parent\":{},\"in_test\":{},\"locals\":{},\"upvars\":{},\"blocks\":{}}}",
+            "{{\"id\":{},\"ext\":{},\"kind\":{},\"promoted\":{},\"def_kind\":{},\"span\":{},\"vis\":{},\"exported\":{},\"unsafe\":{},\"unsafe_blocks\":{},\"arg_count\":{},\"impl_trait\":{},\"impl_self\":{},\"trait_of\":{},\"parent\":{},\"in_test\":{},\"locals\":{},\"upvars\":{},\"blocks\":{}}}",
             esc(id),
             !owner.is_local(),
             esc(kind),
@@ -650,6 +674,7 @@ impl<'tcx> Cx<'tcx> {
             esc(&vis),
             exported,
             is_unsafe,
+            unsafe_blocks,
             body.arg_count,
             impl_of_trait,
             impl_self,
@@ -740,6 +765,9 @@ impl Callbacks for Cb {
             let id = cx.path(did);
             let k = if matches!(kind, DefKind::Closure) { "closure" } else { "fn" };
             bodies.push(cx.body(did, body, &id, k, None));
+            for (pi, pb) in tcx.promoted_mir(did).iter_enumerated() {
+                bodies.push(cx.body(did, pb, &id, "promoted", Some(pi.as_u32())));
+            }
             n_ext += 1;
         }
         cx.cur_depth = 0;
